@@ -30,7 +30,7 @@ def required_counters(tier):
     return ["inject:call", "inject:after-sr", "inject:mid-body", "inject:close", "disconnect:RST", "disconnect:CLOSE",
             "close-events", "file-close-events", "outcome:500", "outcome:truncated", "probe-served", "class:Exception",
             "class:OSError", "class:BaseException", "expose:on", "expose:off", "logsock:on", "logsock:off",
-            "disconnect-before-output"]
+            "disconnect-before-output", "disconnect-raced-application-output"]
 
 
 def base_programs():
@@ -93,7 +93,7 @@ def injections(prog):
 PROBE = {"status": "200 OK", "headers": [["X-Probe", "1"]], "cl": 5, "sr": "call", "steps": [["yield", "probe"]], "ret": "list"}
 
 
-def run_case(case, strat=None):
+def run_case(case, strat=None, record_pilot=False):
     """case: {prog, exc, expose, logsock, version, disconnect: None | [kind, k]}  -> observation dict"""
     from vf import apps
     from vf.sim import runner as R
@@ -114,7 +114,8 @@ def run_case(case, strat=None):
         # disconnect before the application has produced anything
         adj["channel_request_lookahead"] = 1
         prog = dict(prog, steps=[["wait", "gate"]] + list(prog["steps"]))
-    w = World(app, strategy=R.make_strategy(strat or {"kind": "np"}), adj_kw=adj, sndbuf=case.get("sndbuf", 600), step_limit=150000)
+    w = World(app, strategy=R.make_strategy(strat or {"kind": "np"}), adj_kw=adj, sndbuf=case.get("sndbuf", 600), step_limit=150000,
+              record_pilot=record_pilot)
 
     def pick(environ, n):
         return PROBE if environ["PATH_INFO"] == "/probe" else prog
@@ -140,7 +141,10 @@ def run_case(case, strat=None):
                 c.reset()
             else:
                 c.close()
-            w.sleep(2.0)
+            if not case.get("early_race"):
+                # (in the race variant the application carries on at once: its output and the
+                # I/O thread's teardown of the channel overlap)
+                w.sleep(2.0)
             gate.set()
             w.sleep(5.0)
             out["received"] = c.received
@@ -270,6 +274,11 @@ def judge(case, o, acc):
                 out.append(("bytes-after-failure", f"body {body[:40]!r} is not a prefix of what the application delivered before failing"))
             if len(finals) > 1:
                 out.append(("bytes-after-failure", "a second response after the failure"))
+            if I["fail"] == "mid-output" and finals[0]["framing"] == "chunked" and finals[0].get("complete"):
+                # the application failed in mid-body: a last-chunk after that presents the
+                # truncated body to the client as a complete response
+                out.append(("bytes-after-failure:chunked-response-terminated",
+                            f"the chunked response was terminated (last-chunk sent) after the application failed with {len(I['delivered'])} bytes delivered"))
         if marker in wire:
             out.append(("traceback-leaked", "exception text on the wire after output had begun"))
     return out
@@ -305,6 +314,9 @@ def plan(tier, seed):
         specs.append({"mode": "inject", "part": i, "parts": shards, "sample": 1, "seed": seed, "schedules": 1 if tier == "quick" else 4})
     for i in range(4):
         specs.append({"mode": "early", "part": i, "parts": 4, "schedules": 1 if tier == "quick" else 4, "seed": seed})
+    nr = 16 if tier == "quick" else 32
+    for i in range(nr):
+        specs.append({"mode": "early-race", "part": i, "parts": nr, "cap": 40 if tier == "quick" else 400, "seed": seed})
     for i in range(16 if tier == "quick" else 32):
         specs.append({"mode": "disconnect", "part": i, "parts": 16 if tier == "quick" else 32, "sample": 1, "seed": seed, "schedules": 1 if tier == "quick" else 4})
     return specs
@@ -348,6 +360,42 @@ def run_shard(spec):
                     run_and_judge(acc, case, f"{pi}|early|{kind}|{sch}", strat)
                     acc.count("disconnect-before-output")
         acc.sample({"early_disconnect": "client goes away while the application runs, before any output (lookahead 1)"})
+    elif spec["mode"] == "early-race":
+        # the client goes away and the application carries on at the same moment: every single
+        # pre-emption of that schedule (capped), so that the worker's output overlaps the I/O
+        # thread's teardown of the channel
+        from vf.sim import runner as R
+
+        k = 0
+        chosen = [p for p in progs if p["ret"] in ("fw_seek", "fw_noseek", "gen") and (p["ret"] != "gen" or p["steps"])]
+        for pi, prog in enumerate(chosen):
+            for kind in ("RST", "CLOSE"):
+                k += 1
+                if k % spec["parts"] != spec["part"]:
+                    continue
+                case = {"prog": prog, "exc": "Exception", "expose": False, "logsock": bool(k % 2), "version": "1.1",
+                        "early_disconnect": kind, "early_race": True}
+                o = run_case(case, None, record_pilot=True)
+                pilot = o["world"].sched.pilot
+                io = [t.tid for t in o["world"].sched.threads if t.role == "io"]
+                points = R.single_preemptions(pilot)
+                o["world"].close()
+                # every pre-emption of the I/O thread inside the teardown of the channel, the rest sampled
+                focus = []
+                for step, tids, site, cur in pilot:
+                    name = str(site[0]) if site else ""
+                    label = str(site[1]) if site and len(site) > 1 else ""
+                    if cur in io and ("close" in name or name == "del_channel" or (name in ("lock", "unlock") and label.startswith("channel.py"))):
+                        focus += [(step, t) for t in tids]
+                acc.count("teardown-preemption-points", len(focus))
+                rest = [pt for pt in points if pt not in set(focus)]
+                if len(rest) > spec["cap"]:
+                    rest = random.Random(spec["seed"] * 7 + k).sample(rest, spec["cap"])
+                points = sorted(set(focus) | set(rest))
+                for step, tid in points:
+                    run_and_judge(acc, case, f"race|{pi}|{kind}|{step}|{tid}", {"kind": "forced", "switches": {str(step): tid}})
+                    acc.count("disconnect-raced-application-output")
+        acc.sample({"early_race": "client disconnect and application output overlap; single pre-emptions enumerated"})
     else:
         k = 0
         for pi, prog in enumerate(progs):
